@@ -84,6 +84,7 @@ class Tr:
         cfg: representation tables (see rs2v/config.py)"""
         self.c, self.cfg, self.g = crate, cfg, Gen()
         self.depth = 0
+        self.no_hooks = {}
 
     # ------------------------------------------------------------- reification of symbolic values as pure Gallina
     def text(self, v):
@@ -199,7 +200,7 @@ class Tr:
                 if st:
                     return dict(st).get(e[2])
             if base[0] == 'path' and len(base[1]) == 1:
-                t = env.get('__ty', {}).get(base[1][0])
+                t = env.get('__ty', {}).get(base[1][0]) or self.cfg.var_impl.get(base[1][0])
                 st = self.c['structs'].get(t)
                 if st:
                     return dict(st).get(e[2])
@@ -324,6 +325,8 @@ class Tr:
                 return k(v.fields[e[2]], env2)
             if isinstance(v, Ctor) and v.name == 'Tuple' and e[2].isdigit():
                 return k(v.args[int(e[2])], env2)
+            if e[2] == 'data' and isinstance(v, Pure) and e[1][0] == 'path' and e[1][1] == ['self']:
+                return k(v, env2)
             acc = self.cfg.field_access.get(e[2])
             if acc and isinstance(v, Pure):
                 return k(Pure('(%s %s)' % (acc, paren(v.text))), env2)
@@ -513,6 +516,16 @@ class Tr:
             return env['__ret'](Ctor('Unit'), env)
         return self.ev(e[1], env, lambda v, env2: env2['__ret'](v, env2))
 
+    def ev_break(self, e, env, k):
+        if '__break' not in env:
+            raise Unsupported('break outside a translated loop')
+        return env['__break'](env)
+
+    def ev_continue(self, e, env, k):
+        if '__continue' not in env:
+            raise Unsupported('continue outside a translated loop')
+        return env['__continue'](env)
+
     def ev_closure(self, e, env, k):
         return k(('closure', e[1], e[2], env), env)
 
@@ -538,9 +551,14 @@ class Tr:
             return self.ev(body, inner, lambda v, env3: k(v, env))
         if name in ('Ok', 'Err', 'Some') and len(p) == 1:
             return self.evs(args, env, lambda vs, env2: k(Ctor(name, vs), env2))
+        if name in self.cfg.avp_variants and (len(p) == 1 or p[-2] in ('Self', 'AVP')) and len(args) == 1:
+            w = self.cfg.avp_variants[name]
+            return self.ev(args[0], env, lambda v, env2: k(self.vmap(v, lambda x: Pure(w % paren(self.text(x))) if w else x), env2))
         if len(p) >= 2 and (p[-2], p[-1]) in self.cfg.ctor_fns:
             tmpl = self.cfg.ctor_fns[(p[-2], p[-1])]
             return self.evs(args, env, lambda vs, env2: k(Pure('(' + tmpl % tuple(paren(self.text(v)) for v in vs) + ')'), env2))
+        if p == ['Vec', 'new'] and not args:
+            return k(Pure('[]'), env)
         if p[-1] == 'from_utf8':
             def g(vs, env2):
                 d = self.text(vs[0])
@@ -554,22 +572,21 @@ class Tr:
         impl = p[-2] if len(p) >= 2 else None
         if impl == 'Self':
             impl = env.get('__impl')
+        impl = self.cfg.impl_alias.get((env.get('__impl'), impl), impl)
         return self.call_fn(impl, name, args, env, k)
 
     def call_fn(self, impl, name, args, env, k, self_val=None):
+        hook = self.cfg.call_hooks.get((impl, name))
+        if hook is not None and not self.no_hooks.get((impl, name)):
+            return hook(self, args, env, k)
         key = (impl, name)
         fn = self.c['fns'].get(key) or self.c['fns'].get((None, name))
         if fn is None:
             raise Unsupported('call of unknown function %s::%s' % (impl, name))
-        if self.depth > 12:
-            raise Unsupported('inlining depth')
         _, fname, params, ret, body, quals = fn
         if body is None:
             raise Unsupported('no body for %s' % name)
         params = list(params)
-        hook = self.cfg.call_hooks.get((impl, name))
-        if hook is not None:
-            return hook(self, args, env, k)
 
         def go(vs, env2):
             inner = {'__impl': impl if impl is not None else env2.get('__impl'), '__ty': {}}
@@ -775,7 +792,7 @@ class Tr:
         raise Unsupported('statement %s' % s[0])
 
     # ------------------------------------------------------------- entry: a reader function as a prog term
-    def reader_fn(self, impl, name, bind_args, finish):
+    def reader_fn(self, impl, name, bind_args, finish, env_extra=None):
         """translate impl::name; bind_args: {param: V} for the non-reader parameters;
         finish: V -> Gallina text of the returned leaf (e.g. wrap the struct into the avp)"""
         fn = self.c['fns'].get((impl, name))
@@ -783,6 +800,7 @@ class Tr:
             raise Unsupported('function %s::%s not found' % (impl, name))
         _, fname, params, ret, body, quals = fn
         env = {'__impl': impl, '__ty': {}}
+        env.update(env_extra or {})
         for pn, pty in params:
             if pn == 'reader':
                 env[pn] = Ctor('Reader')
